@@ -24,7 +24,7 @@ namespace E57
     `false` beyond the end -/
 def bitOf (e : Bytes) (i : Nat) : Bool := (e[i / 8]!).toNat.testBit (i % 8)
 
-theorem testBit_leVal (e : Bytes) (i : Nat) : (leVal e).testBit i = bitOf e i := by
+theorem testBit_leVal_bitOf (e : Bytes) (i : Nat) : (leVal e).testBit i = bitOf e i := by
   induction e generalizing i with
   | nil => simp [bitOf, show (default : UInt8) = 0 from rfl]
   | cons b e ih =>
@@ -192,7 +192,7 @@ theorem eq_zeros_of_leVal (l : Bytes) (h : leVal l = 0) : l = zeros l.length :=
   eq_of_leVal_eq l (zeros l.length) (zeros_length _).symm (by rw [h, leVal_zeros])
 
 theorem bitOf_zeros (n i : Nat) : bitOf (zeros n) i = false := by
-  rw [← testBit_leVal, leVal_zeros, Nat.zero_testBit]
+  rw [← testBit_leVal_bitOf, leVal_zeros, Nat.zero_testBit]
 
 /-! ### 5. bursts inside the payload -/
 
@@ -233,12 +233,12 @@ theorem detect_burst_payload (p e : Bytes) (hp : p.length = 1024) (he : e.length
     (hwin : ∀ i, bitOf e i = true → s ≤ i ∧ i < s + len) (hne : ∃ i, bitOf e i = true) :
     pageOk (xorBytes p e) = false := by
   have hwin' : ∀ i, (leVal e).testBit i = true → s ≤ i ∧ i < s + len := by
-    intro i hi; rw [testBit_leVal] at hi; exact hwin i hi
+    intro i hi; rw [testBit_leVal_bitOf] at hi; exact hwin i hi
   obtain ⟨hval, hlt⟩ := window_factor (leVal e) s len hwin'
   have hw0 : leVal e >>> s ≠ 0 := by
     intro h0
     obtain ⟨i, hi⟩ := hne
-    rw [← testBit_leVal, hval, h0, Nat.zero_mul, Nat.zero_testBit] at hi
+    rw [← testBit_leVal_bitOf, hval, h0, Nat.zero_mul, Nat.zero_testBit] at hi
     exact Bool.false_ne_true hi
   exact detect_window_value p e hp he hok (leVal e >>> s) s len hw0 hlt h32 hin hval
 
@@ -257,7 +257,7 @@ theorem detect_checksum_bits (p e : Bytes) (hp : p.length = 1024) (he : e.length
       rw [← hm]
       apply Nat.eq_of_testBit_eq
       intro i
-      rw [Nat.testBit_mod_two_pow, Nat.zero_testBit, testBit_leVal]
+      rw [Nat.testBit_mod_two_pow, Nat.zero_testBit, testBit_leVal_bitOf]
       cases hb : bitOf e i
       · simp
       · have := hwin i hb
@@ -270,7 +270,7 @@ theorem detect_checksum_bits (p e : Bytes) (hp : p.length = 1024) (he : e.length
     have h8 := hwin i hi
     have : (leVal (e.drop 1020)).testBit (i - 8160) = true := by
       rw [leVal_drop, Nat.testBit_shiftRight, show 8 * 1020 + (i - 8160) = i by omega,
-        testBit_leVal, hi]
+        testBit_leVal_bitOf, hi]
     rw [h, leVal_zeros, Nat.zero_testBit] at this
     exact Bool.false_ne_true this
   exact detect_checksum_only p e hp he hok hpay hck
@@ -341,7 +341,7 @@ theorem detect_burst_bytes (p e : Bytes) (hp : p.length = 1024) (he : e.length =
 theorem window_of_leVal (e : Bytes) (w s len : Nat) (h : leVal e = w * 2 ^ s) (hw : w < 2 ^ len) :
     ∀ i, bitOf e i = true → s ≤ i ∧ i < s + len := by
   intro i hi
-  rw [← testBit_leVal, h, Nat.testBit_mul_two_pow, Bool.and_eq_true, decide_eq_true_eq] at hi
+  rw [← testBit_leVal_bitOf, h, Nat.testBit_mul_two_pow, Bool.and_eq_true, decide_eq_true_eq] at hi
   refine ⟨hi.1, ?_⟩
   apply Classical.byContradiction
   intro hge
@@ -352,7 +352,7 @@ theorem window_of_leVal (e : Bytes) (w s len : Nat) (h : leVal e = w * 2 ^ s) (h
 
 theorem exists_bit_of_leVal (e : Bytes) (h : leVal e ≠ 0) : ∃ i, bitOf e i = true := by
   obtain ⟨i, hi⟩ := Nat.exists_testBit_of_ne_zero h
-  exact ⟨i, by rw [← testBit_leVal]; exact hi⟩
+  exact ⟨i, by rw [← testBit_leVal_bitOf]; exact hi⟩
 
 theorem leVal_pattern (a b : Nat) (w : Bytes) :
     leVal (zeros a ++ w ++ zeros b) = leVal w * 2 ^ (8 * a) := by
@@ -421,7 +421,7 @@ theorem bitOf_codeword_payload (e : Bytes) (he : e.length = 1024) (i : Nat) (hi 
   obtain ⟨m, hm⟩ : ∃ m, m = 8 * 1020 := ⟨_, rfl⟩
   rw [hl, ← hm] at hx
   rw [← hm] at hi
-  rw [← testBit_leVal, ← testBit_leVal, codeword, leVal_append, hl, ← hm, Nat.add_comm,
+  rw [← testBit_leVal_bitOf, ← testBit_leVal_bitOf, codeword, leVal_append, hl, ← hm, Nat.add_comm,
     Nat.testBit_two_pow_mul_add _ hx, if_pos hi, leVal_take, ← hm, Nat.testBit_mod_two_pow]
   simp [hi]
 
@@ -432,14 +432,14 @@ theorem detect_burst_codeword (p e : Bytes) (hp : p.length = 1024) (he : e.lengt
     (hwin : ∀ i, bitOf (codeword e) i = true → s ≤ i ∧ i < s + len)
     (hne : ∃ i, bitOf (codeword e) i = true) : pageOk (xorBytes p e) = false := by
   have hwin' : ∀ i, (leVal (codeword e)).testBit i = true → s ≤ i ∧ i < s + len := by
-    intro i hi; rw [testBit_leVal] at hi; exact hwin i hi
+    intro i hi; rw [testBit_leVal_bitOf] at hi; exact hwin i hi
   obtain ⟨hval, hlt⟩ := window_factor _ s len hwin'
   generalize leVal (codeword e) >>> s = w at hval hlt
   have hw32 : w < 2 ^ 32 := Nat.lt_of_lt_of_le hlt (Nat.pow_le_pow_right (by omega) h32)
   have hw0 : w ≠ 0 := by
     intro h0
     obtain ⟨i, hi⟩ := hne
-    rw [← testBit_leVal, hval, h0, Nat.zero_mul, Nat.zero_testBit] at hi
+    rw [← testBit_leVal_bitOf, hval, h0, Nat.zero_mul, Nat.zero_testBit] at hi
     exact Bool.false_ne_true hi
   rw [Bool.eq_false_iff]
   intro hund
@@ -524,19 +524,5 @@ theorem burst33_undetected (p : Bytes) (hp : p.length = 1024) (hok : pageOk p = 
 
 /-! ### axioms -/
 
-#print axioms testBit_leVal
-#print axioms crcRaw_toNat
-#print axioms crcRaw_window
-#print axioms detect_window_value
-#print axioms detect_burst_payload
-#print axioms detect_checksum_bits
-#print axioms detect_burst_checksum
-#print axioms detect_burst
-#print axioms detect_burst_bytes
-#print axioms detect_burst_bytes_pattern
-#print axioms syndrome_toNat
-#print axioms bitOf_codeword_payload
-#print axioms detect_burst_codeword
-#print axioms burst33_undetected
 
 end E57
